@@ -317,7 +317,7 @@ static int runScript(const char* scriptPath, const char* outPath, int tid) {
         else if (op == "param") {
             // two equivalent ways of preparing the same parameter (constructor arguments / the name and description setters,
             // lock() alone / lock-unlock-lock), chosen deterministically from the arguments
-            const bool viaSetters = (t[2].size() + t[3].size()) % 2 == 1;
+            const bool viaSetters = (t[2].size() / 2 + t[3].size() / 2) % 2 == 1;   // parity of the number of name + description bytes
             Parameter p = viaSetters ? Parameter() : Parameter(unx(t[2]), unx(t[3]));
             if (viaSetters) { p.name(unx(t[2])); p.description(unx(t[3])); }
             std::string sres = "ok";
